@@ -165,50 +165,152 @@ theorem Geometric.ciMean_rex (crit : Crit Rex) (g : Geometric Rex) (conf : Confi
 
 /-! ### harmonic -/
 
-/-- two-sided: the reciprocal-space interval `[a, b]` gives `Interval::new(1/b, 1/a)` -/
-theorem Harmonic.ciMean_twoSided (crit : Crit Rex) (h : Harmonic Rex) (l a b : Rex)
+section recipBound
+variable {F W : Type} [Scalar F] [Scalar W] [Widen F W]
+
+/-- every carrier: the reciprocal of a strictly positive reciprocal-space bound is `1/r` -/
+theorem Harmonic.recipBound_of_pos (r : F) (h : gt r (zero : F) = true) :
+    Harmonic.recipBound r = div one r := by
+  simp only [Harmonic.recipBound, h, if_true]
+
+/-- every carrier: the reciprocal of a reciprocal-space bound that is not strictly positive
+    (including an unordered one) is read as `+∞` -/
+theorem Harmonic.recipBound_of_not_pos (r : F) (h : gt r (zero : F) = false) :
+    Harmonic.recipBound r = posInf := by
+  simp only [Harmonic.recipBound, h, Bool.false_eq_true, if_false]
+
+/-- every carrier, two-sided: the reciprocal-space interval `[a, b]` gives
+    `Interval::new(recipBound b, recipBound a)` -/
+theorem Harmonic.ciMean_twoSided_recipBound (crit : Crit W) (h : Harmonic F) (l : W) (a b : F)
     (hJ : h.recip.ciMean crit (.twoSided l) = .ok (.twoSided a b)) :
     h.ciMean crit (.twoSided l) =
-      liftI (Interval.new (⟨1 / b.val⟩ : Rex) ⟨1 / a.val⟩) := by
+      liftI (Interval.new (Harmonic.recipBound b) (Harmonic.recipBound a)) := by
   unfold Harmonic.ciMean
   simp only [Confidence.flipped, hJ, Outcome.bind_ok, intervalOfKind, Interval.highX,
     Interval.lowX]
-  congr 2
+
+/-- every carrier, upper one-sided: the flipped (lower) reciprocal-space interval `(-∞, b]` gives
+    `[recipBound b, +∞)` -/
+theorem Harmonic.ciMean_upper_recipBound (crit : Crit W) (h : Harmonic F) (l : W) (b : F)
+    (hJ : h.recip.ciMean crit (.lower l) = .ok (.lower b)) :
+    h.ciMean crit (.upper l) = .ok (.upper (Harmonic.recipBound b)) := by
+  unfold Harmonic.ciMean
+  simp only [Confidence.flipped, hJ, Outcome.bind_ok, intervalOfKind, Interval.highX,
+    Interval.newUpper]
+
+/-- every carrier, lower one-sided: the flipped (upper) reciprocal-space interval `[a, +∞)` gives
+    `(-∞, recipBound a]` -/
+theorem Harmonic.ciMean_lower_recipBound (crit : Crit W) (h : Harmonic F) (l : W) (a : F)
+    (hJ : h.recip.ciMean crit (.upper l) = .ok (.upper a)) :
+    h.ciMean crit (.lower l) = .ok (.lower (Harmonic.recipBound a)) := by
+  unfold Harmonic.ciMean
+  simp only [Confidence.flipped, hJ, Outcome.bind_ok, intervalOfKind, Interval.lowX,
+    Interval.newLower]
+
+/-- every carrier, two-sided, reciprocal-space interval `[a, b]` reaching down to zero or below
+    with a positive upper end: `Interval::new(1/b, +∞)` -/
+theorem Harmonic.ciMean_twoSided_straddle (crit : Crit W) (h : Harmonic F) (l : W) (a b : F)
+    (hJ : h.recip.ciMean crit (.twoSided l) = .ok (.twoSided a b))
+    (ha : gt a (zero : F) = false) (hb : gt b (zero : F) = true) :
+    h.ciMean crit (.twoSided l) = liftI (Interval.new (div one b) (posInf : F)) := by
+  rw [Harmonic.ciMean_twoSided_recipBound crit h l a b hJ, Harmonic.recipBound_of_pos b hb,
+    Harmonic.recipBound_of_not_pos a ha]
+
+/-- every carrier, two-sided, neither end of the reciprocal-space interval strictly positive:
+    `Interval::new(+∞, +∞)` -/
+theorem Harmonic.ciMean_twoSided_not_pos (crit : Crit W) (h : Harmonic F) (l : W) (a b : F)
+    (hJ : h.recip.ciMean crit (.twoSided l) = .ok (.twoSided a b))
+    (ha : gt a (zero : F) = false) (hb : gt b (zero : F) = false) :
+    h.ciMean crit (.twoSided l) = liftI (Interval.new (posInf : F) (posInf : F)) := by
+  rw [Harmonic.ciMean_twoSided_recipBound crit h l a b hJ, Harmonic.recipBound_of_not_pos b hb,
+    Harmonic.recipBound_of_not_pos a ha]
+
+/-- every carrier, two-sided, both ends strictly positive: `Interval::new(1/b, 1/a)` -/
+theorem Harmonic.ciMean_twoSided_of_pos (crit : Crit W) (h : Harmonic F) (l : W) (a b : F)
+    (hJ : h.recip.ciMean crit (.twoSided l) = .ok (.twoSided a b))
+    (ha : gt a (zero : F) = true) (hb : gt b (zero : F) = true) :
+    h.ciMean crit (.twoSided l) = liftI (Interval.new (div one b) (div one a)) := by
+  rw [Harmonic.ciMean_twoSided_recipBound crit h l a b hJ, Harmonic.recipBound_of_pos b hb,
+    Harmonic.recipBound_of_pos a ha]
+
+/-- every carrier, upper one-sided, `b > 0`: `[1/b, +∞)` -/
+theorem Harmonic.ciMean_upper_of_pos (crit : Crit W) (h : Harmonic F) (l : W) (b : F)
+    (hJ : h.recip.ciMean crit (.lower l) = .ok (.lower b)) (hb : gt b (zero : F) = true) :
+    h.ciMean crit (.upper l) = .ok (.upper (div one b)) := by
+  rw [Harmonic.ciMean_upper_recipBound crit h l b hJ, Harmonic.recipBound_of_pos b hb]
+
+/-- every carrier, upper one-sided, `b` not strictly positive: the lower bound is `+∞` -/
+theorem Harmonic.ciMean_upper_not_pos (crit : Crit W) (h : Harmonic F) (l : W) (b : F)
+    (hJ : h.recip.ciMean crit (.lower l) = .ok (.lower b)) (hb : gt b (zero : F) = false) :
+    h.ciMean crit (.upper l) = .ok (.upper (posInf : F)) := by
+  rw [Harmonic.ciMean_upper_recipBound crit h l b hJ, Harmonic.recipBound_of_not_pos b hb]
+
+/-- every carrier, lower one-sided, `a > 0`: `(-∞, 1/a]` -/
+theorem Harmonic.ciMean_lower_of_pos (crit : Crit W) (h : Harmonic F) (l : W) (a : F)
+    (hJ : h.recip.ciMean crit (.upper l) = .ok (.upper a)) (ha : gt a (zero : F) = true) :
+    h.ciMean crit (.lower l) = .ok (.lower (div one a)) := by
+  rw [Harmonic.ciMean_lower_recipBound crit h l a hJ, Harmonic.recipBound_of_pos a ha]
+
+/-- every carrier, lower one-sided, `a` not strictly positive: the upper bound is `+∞` -/
+theorem Harmonic.ciMean_lower_not_pos (crit : Crit W) (h : Harmonic F) (l : W) (a : F)
+    (hJ : h.recip.ciMean crit (.upper l) = .ok (.upper a)) (ha : gt a (zero : F) = false) :
+    h.ciMean crit (.lower l) = .ok (.lower (posInf : F)) := by
+  rw [Harmonic.ciMean_lower_recipBound crit h l a hJ, Harmonic.recipBound_of_not_pos a ha]
+
+/-- `Harmonic::ci` runs `ci_mean` on the state built from the data (every carrier) -/
+theorem Harmonic.ci_of_fromList (crit : Crit W) (conf : Confidence W) (xs : List F)
+    (h : Harmonic F) (hf : (Harmonic.fromList xs : Outcome (Err W) (Harmonic F)) = .ok h) :
+    Harmonic.ci crit conf xs = h.ciMean crit conf := by
+  unfold Harmonic.ci
+  rw [hf, Outcome.bind_ok]
+
+end recipBound
+
+theorem Rex.gt_zero_of_pos (r : Rex) (h : 0 < r.val) : gt r (zero : Rex) = true := by
+  rw [RR.gt_iff]; exact h
+
+theorem Rex.gt_zero_of_not_pos (r : Rex) (h : r.val ≤ 0) : gt r (zero : Rex) = false := by
+  rw [Bool.eq_false_iff, Ne, RR.gt_iff]
+  exact not_lt.mpr h
+
+/-- at exact arithmetic the reciprocal of a strictly positive bound is the real `1/r` -/
+theorem Harmonic.recipBound_rex_pos (r : Rex) (h : 0 < r.val) :
+    Harmonic.recipBound r = (⟨1 / r.val⟩ : Rex) := by
+  rw [Harmonic.recipBound_of_pos r (Rex.gt_zero_of_pos r h)]
+  apply RR.ext'
+  simp
 
 /-- two-sided with a positive reciprocal-space lower bound: `[1/b, 1/a]` -/
 theorem Harmonic.ciMean_twoSided_pos (crit : Crit Rex) (h : Harmonic Rex) (l a b : Rex)
     (hJ : h.recip.ciMean crit (.twoSided l) = .ok (.twoSided a b)) (ha : 0 < a.val) :
     h.ciMean crit (.twoSided l) = .ok (.twoSided (⟨1 / b.val⟩ : Rex) ⟨1 / a.val⟩) := by
-  rw [Harmonic.ciMean_twoSided crit h l a b hJ]
   obtain ⟨lo, hi, hI, hg⟩ := Arith.ciMean_ok_kind crit h.recip (.twoSided l) _ hJ
   injection hI with h1 h2
   subst h1 h2
   have hle : a.val ≤ b.val := by
     rw [Bool.eq_false_iff, Ne, RR.gt_iff] at hg
     exact not_lt.mp hg
+  rw [Harmonic.ciMean_twoSided_recipBound crit h l a b hJ,
+    Harmonic.recipBound_rex_pos a ha, Harmonic.recipBound_rex_pos b (lt_of_lt_of_le ha hle)]
   have : gt (⟨1 / b.val⟩ : Rex) (⟨1 / a.val⟩ : Rex) = false := by
     rw [Bool.eq_false_iff, Ne, RR.gt_iff]
     simp only [not_lt]
     exact one_div_le_one_div_of_le ha hle
   simp only [Interval.new, this, liftI, Bool.false_eq_true, if_false]
 
-/-- upper one-sided: the flipped (lower) reciprocal-space interval `(-∞, b]` gives `[1/b, +∞)` -/
+/-- upper one-sided: the flipped (lower) reciprocal-space interval `(-∞, b]` with `0 < b` gives
+    `[1/b, +∞)` -/
 theorem Harmonic.ciMean_upper (crit : Crit Rex) (h : Harmonic Rex) (l b : Rex)
-    (hJ : h.recip.ciMean crit (.lower l) = .ok (.lower b)) :
+    (hJ : h.recip.ciMean crit (.lower l) = .ok (.lower b)) (hb : 0 < b.val) :
     h.ciMean crit (.upper l) = .ok (.upper (⟨1 / b.val⟩ : Rex)) := by
-  unfold Harmonic.ciMean
-  simp only [Confidence.flipped, hJ, Outcome.bind_ok, intervalOfKind, Interval.highX,
-    Interval.newUpper]
-  congr 2
+  rw [Harmonic.ciMean_upper_recipBound crit h l b hJ, Harmonic.recipBound_rex_pos b hb]
 
-/-- lower one-sided: the flipped (upper) reciprocal-space interval `[a, +∞)` gives `(-∞, 1/a]` -/
+/-- lower one-sided: the flipped (upper) reciprocal-space interval `[a, +∞)` with `0 < a` gives
+    `(-∞, 1/a]` -/
 theorem Harmonic.ciMean_lower (crit : Crit Rex) (h : Harmonic Rex) (l a : Rex)
-    (hJ : h.recip.ciMean crit (.upper l) = .ok (.upper a)) :
+    (hJ : h.recip.ciMean crit (.upper l) = .ok (.upper a)) (ha : 0 < a.val) :
     h.ciMean crit (.lower l) = .ok (.lower (⟨1 / a.val⟩ : Rex)) := by
-  unfold Harmonic.ciMean
-  simp only [Confidence.flipped, hJ, Outcome.bind_ok, intervalOfKind, Interval.lowX,
-    Interval.newLower]
-  congr 2
+  rw [Harmonic.ciMean_lower_recipBound crit h l a hJ, Harmonic.recipBound_rex_pos a ha]
 
 /-- errors and panics of the reciprocal-space interval pass through -/
 theorem Harmonic.ciMean_not_ok (crit : Crit Rex) (h : Harmonic Rex) (conf : Confidence Rex) :
@@ -217,6 +319,37 @@ theorem Harmonic.ciMean_not_ok (crit : Crit Rex) (h : Harmonic Rex) (conf : Conf
   constructor
   · intro e he; unfold Harmonic.ciMean; rw [he]; rfl
   · intro t ht; unfold Harmonic.ciMean; rw [ht]; rfl
+
+/-! ### a concrete reciprocal-space sample for the non-vacuity examples: reciprocals `1, 3` -/
+
+theorem smean_one_three : smean [1, 3] = 2 := by unfold smean; norm_num
+
+/-- `s/√n = √2/√2 = 1`, so with a constant critical value `c` the half-width is `c` -/
+theorem halfWidth_one_three (c : ℝ) (conf : Confidence Rex) :
+    halfWidth (constCrit c) conf [1, 3] = c := by
+  have h2 : ssd [1, 3] = Real.sqrt 2 := by
+    unfold ssd svar sdev2 smean
+    norm_num
+  unfold halfWidth critVal constCrit
+  rw [h2]
+  simp only [List.length_cons, List.length_nil]
+  norm_num
+
+/-- the arithmetic two-sided interval of the reciprocals of `1, 1/3` with constant critical value
+    `c ≥ 0` is `[2 - c, 2 + c]` -/
+theorem Arith.ci_recip_one_third (c : ℝ) (hc : 0 ≤ c) (l : Rex) (h0 : 0 < l.val) (h1 : l.val < 1) :
+    Arith.ci (constCrit c) (Confidence.twoSided l).flipped
+      (([(1 : ℝ), 1 / 3].map (fun x => 1 / x)).map inj : List Rex) =
+      .ok (.twoSided (⟨2 - c⟩ : Rex) ⟨2 + c⟩) := by
+  have hl : [(1 : ℝ), 1 / 3].map (fun x => 1 / x) = [1, 3] := by norm_num
+  rw [hl, show (Confidence.twoSided l).flipped = .twoSided l from rfl,
+    Arith.ci_rex _ _ _ (by simp) (probOk_quantile (.twoSided l) h0 h1), halfWidth_one_three,
+    smean_one_three]
+  have : gt (⟨2 - c⟩ : Rex) (⟨2 + c⟩ : Rex) = false := by
+    rw [Bool.eq_false_iff, Ne, RR.gt_iff]
+    simp only [not_lt]
+    linarith
+  simp only [intervalOfKind, Interval.new, this, liftI, Bool.false_eq_true, if_false]
 
 theorem natCast_pred (n : ℕ) (hn : 1 ≤ n) : ((n - 1 : ℕ) : ℝ) = (n : ℝ) - 1 := by
   rw [Nat.cast_sub hn]; simp
